@@ -1466,13 +1466,20 @@ class BADS:
                 if yval_vec.size == 1:
                     yval_vec = np.vstack((yval_vec, self.yval))
                     if self.options["specify_target_noise"]:
+                        # SD logged at the returned point (not at the last logged point)
+                        X_logged = self.function_logger.X[
+                            : self.function_logger.Xn + 1
+                        ]
+                        idx_u = np.flatnonzero(
+                            np.all(X_logged == self.u, axis=1)
+                        )
+                        idx_u = (
+                            idx_u[-1]
+                            if idx_u.size > 0
+                            else self.function_logger.Xn
+                        )
                         ysd_vec = np.vstack(
-                            (
-                                ysd_vec,
-                                self.function_logger.S[
-                                    self.function_logger.Xn
-                                ],
-                            )
+                            (ysd_vec, self.function_logger.S[idx_u])
                         )
 
                 self.optim_state["yval_vec"] = np.copy(yval_vec)
